@@ -22,11 +22,13 @@ func runC10(c *Ctx, r *Report) {
 	c10R5(c, r, "C10.R5")
 	c10Limits(c, r, "C10.R6")
 	c11CountFailure(c, r, "C10.R9") // ... and every failed dial is remembered for the fail duration, whatever the peer's present count (a failure dropped because the peer is already down lets it come back too early)
-	c11R1(c, r, "C10.R8")     // "below its failure limit" over histories: every counted failure is forgotten again after the fail duration, whatever happens to the handler in between (peers outlive configurations)
-	c11PeerKey(c, r, "C10.R12")       // the state a backend is judged on ends with the configurations that name it: every operation on the peer table spells the key the same way (a peer stored under one spelling and released under another outlives its configuration, health flag and all)
-	c11Provision(c, r, "C10.R11")     // "available" is judged on the backend's shared state: provisioning an upstream whose address is already in the pool takes the pooled peer, it does not make a second one
+	c11R1(c, r, "C10.R8")           // "below its failure limit" over histories: every counted failure is forgotten again after the fail duration, whatever happens to the handler in between (peers outlive configurations)
+	c11PeerKey(c, r, "C10.R12")     // the state a backend is judged on ends with the configurations that name it: every operation on the peer table spells the key the same way (a peer stored under one spelling and released under another outlives its configuration, health flag and all)
+	c10RobinPerInstance(c, r, "C10.R13")
+	c11R6(c, r, "C10.R14")          // "currently available" is judged on counters that only move by +1/-1 pairs: a reset to zero with forgetters still pending drives the failure count negative and hides later failures
+	c11Provision(c, r, "C10.R11")   // "available" is judged on the backend's shared state: provisioning an upstream whose address is already in the pool takes the pooled peer, it does not make a second one
 	c03Dial(c, r, "C10.R10", false) // an upstream leaves the rotation for its own failures only: a failed dial is remembered on the peer that was dialed (evaluation of dialPeers over all outcomes), not on its siblings, which other upstreams may share
-	c11Handle(c, r, "C10.R7") // "below its connection limit" is measured on counters the proxy keeps exact: +1 per peer once connected, -1 when done, nothing left behind by a failed dial
+	c11Handle(c, r, "C10.R7")       // "below its connection limit" is measured on counters the proxy keeps exact: +1 per peer once connected, -1 when done, nothing left behind by a failed dial
 }
 
 type polSpec struct {
